@@ -51,6 +51,7 @@ var preludeFuns = map[string]preludeFun{
 	"abs":        {"absI", []string{"Int"}, "Int"},
 	"addDays":    {"addDays", []string{"Int", "Int"}, "Int"},
 	"sprint2":    {"sprint2", []string{"Int", "Str"}, "Str"},
+	"dense1":     {"dense1", []string{"(Array Int Bool)", "Int"}, "Bool"},
 }
 
 const prelude = `(declare-sort Str 0)
@@ -125,6 +126,13 @@ const prelude = `(declare-sort Str 0)
 (assert (forall ((d (Array Int Bool)) (j Int)) (! (=> (and (<= 0 j) (< j (ilistN d))) (and (select d (ilistKey d j)) (= (ilistPos d (ilistKey d j)) j))) :pattern ((ilistKey d j)))))
 (assert (forall ((d (Array Int Bool)) (k Int)) (! (=> (select d k) (and (<= 0 (ilistPos d k)) (< (ilistPos d k) (ilistN d)) (= (ilistKey d (ilistPos d k)) k))) :pattern ((ilistPos d k)))))
 (assert (forall ((d (Array Int Bool)) (i Int) (j Int)) (! (=> (and (<= 0 i) (< i j) (< j (ilistN d))) (< (ilistKey d i) (ilistKey d j))) :pattern ((ilistKey d i) (ilistKey d j)))))
+; dense1(d, N): d is exactly the set {1..N}; then the sorted listing is the identity shifted by one (T-schemas)
+(declare-fun dense1 ((Array Int Bool) Int) Bool)
+(declare-fun dense1sk ((Array Int Bool) Int) Int)
+(assert (forall ((d (Array Int Bool)) (n Int)) (! (=> (= (select d (dense1sk d n)) (and (<= 1 (dense1sk d n)) (<= (dense1sk d n) n))) (dense1 d n)) :pattern ((dense1 d n)))))
+(assert (forall ((d (Array Int Bool)) (n Int) (i Int)) (! (=> (dense1 d n) (= (select d i) (and (<= 1 i) (<= i n)))) :pattern ((dense1 d n) (select d i)))))
+(assert (forall ((d (Array Int Bool)) (n Int)) (! (=> (and (dense1 d n) (>= n 0)) (= (ilistN d) n)) :pattern ((dense1 d n)))))
+(assert (forall ((d (Array Int Bool)) (n Int) (j Int)) (! (=> (and (dense1 d n) (<= 0 j) (< j n)) (= (ilistKey d j) (+ j 1))) :pattern ((dense1 d n) (ilistKey d j)))))
 `
 
 var symRe = regexp.MustCompile(`\|[^|]*\|`)
@@ -138,17 +146,25 @@ func (V *Verifier) buildQuery(o *Oblig, sums map[string]*SumFn, negate bool) str
 		}
 		body.WriteString("(assert " + p + ")\n")
 	}
+	var skDecls []string
 	if negate {
-		body.WriteString("(assert (not " + o.Goal + "))\n")
+		g := o.Goal
+		if e, err := parseSx(g); err == nil {
+			g = skolemizeGoal(e, &skDecls).String()
+		}
+		body.WriteString("(assert (not " + g + "))\n")
 	}
 	text := body.String()
-	// unfold recursive sums at the applications that occur (to a fixpoint, bounded)
+	// unfold recursive sums one step at the applications that occur in the query; applications introduced by an
+	// unfolding are unfolded in a second round only if they belong to another function (nested sums), so that the
+	// predecessor chain F(n-1), F(n-2), ... is not followed
 	var unfold []string
 	seenU := map[string]bool{}
-	for round := 0; round < 3; round++ {
-		added := false
-		scan := text + strings.Join(unfold, "\n")
-		for _, sf := range sums {
+	scan := text
+	for round := 0; round < 2; round++ {
+		var added []string
+		for _, k := range sortedSumKeys(sums) {
+			sf := sums[k]
 			for _, args := range sexpArgs(scan, sf.Name) {
 				if len(args) != len(sf.PSorts)+1 || hasBoundArg(args) {
 					continue
@@ -158,19 +174,21 @@ func (V *Verifier) buildQuery(o *Oblig, sums map[string]*SumFn, negate bool) str
 					continue
 				}
 				seenU[key] = true
-				added = true
 				n := args[len(args)-1]
 				lo, bodyAt := sf.inst(args[:len(args)-1], "(- "+n+" 1)")
 				app := func(last string) string {
 					return sApp(sf.Name, append(append([]string{}, args[:len(args)-1]...), last)...)
 				}
+				seenU[sf.Name+" "+strings.Join(append(append([]string{}, args[:len(args)-1]...), "(- "+n+" 1)"), " ")] = true
 				unfold = append(unfold, fmt.Sprintf("(assert (=> (<= %s %s) (= %s 0)))", n, lo, app(n)))
 				unfold = append(unfold, fmt.Sprintf("(assert (=> (> %s %s) (= %s (+ %s %s))))", n, lo, app(n), app("(- "+n+" 1)"), bodyAt))
+				added = append(added, bodyAt)
 			}
 		}
-		if !added {
+		if len(added) == 0 {
 			break
 		}
+		scan = strings.Join(added, "\n")
 	}
 	unfold = append(unfold, sumRelationLemmas(text+strings.Join(unfold, "\n"), sums)...)
 	full := text + strings.Join(unfold, "\n")
@@ -207,6 +225,9 @@ func (V *Verifier) buildQuery(o *Oblig, sums map[string]*SumFn, negate bool) str
 		if m == "" || used[m] {
 			b.WriteString(d + "\n")
 		}
+	}
+	for _, d := range skDecls {
+		b.WriteString(d + "\n")
 	}
 	for _, u := range unfold {
 		b.WriteString(u + "\n")
@@ -450,11 +471,32 @@ func sumRelationLemmas(text string, sums map[string]*SumFn) []string {
 			}
 		}
 		emitted := map[string]bool{}
+		// MONO / NONNEG: with non-negative terms the partial sums are non-negative and monotone in the upper bound
+		for i := 0; i < len(apps); i++ {
+			pa, n := apps[i][:len(apps[i])-1], apps[i][len(apps[i])-1]
+			lo, _ := sf.inst(pa, "0")
+			nsk++
+			sk := fmt.Sprintf("sumsk_%d", nsk)
+			_, bsk := sf.inst(pa, sk)
+			out = append(out, fmt.Sprintf("(declare-const %s Int)", sk))
+			out = append(out, fmt.Sprintf("(assert (=> (=> (and (<= %s %s) (< %s %s)) (>= %s 0)) (>= %s 0)))", lo, sk, sk, n, bsk, sApp(sf.Name, apps[i]...)))
+			for j := 0; j < len(apps); j++ {
+				if i == j || strings.Join(pa, " ") != strings.Join(apps[j][:len(apps[j])-1], " ") {
+					continue
+				}
+				m := apps[j][len(apps[j])-1]
+				nsk++
+				sk2 := fmt.Sprintf("sumsk_%d", nsk)
+				_, b2 := sf.inst(pa, sk2)
+				out = append(out, fmt.Sprintf("(declare-const %s Int)", sk2))
+				out = append(out, fmt.Sprintf("(assert (=> (and (<= %s %s) (=> (and (<= %s %s) (< %s %s)) (>= %s 0))) (<= %s %s)))", m, n, lo, sk2, sk2, n, b2, sApp(sf.Name, apps[j]...), sApp(sf.Name, apps[i]...)))
+			}
+		}
 		for i := 0; i < len(apps); i++ {
 			for j := i + 1; j < len(apps); j++ {
 				pa, pb := apps[i][:len(apps[i])-1], apps[j][:len(apps[j])-1]
 				if strings.Join(pa, " ") == strings.Join(pb, " ") {
-					continue // same parameters: related by unfolding only
+					continue // same parameters: related by unfolding and monotonicity only
 				}
 				loA, _ := sf.inst(pa, "0")
 				loB, _ := sf.inst(pb, "0")
@@ -505,5 +547,113 @@ func sumRelationLemmas(text string, sums map[string]*SumFn) []string {
 			}
 		}
 	}
+	// cross-function congruence: two different sum functions whose bodies agree on [lo,n) have equal sums
+	type app struct {
+		sf   *SumFn
+		args []string
+	}
+	var all []app
+	for _, k := range names {
+		sf := sums[k]
+		seen := map[string]bool{}
+		for _, a := range sexpArgs(text, sf.Name) {
+			if len(a) == len(sf.PSorts)+1 && !hasBoundArg(a) && !seen[strings.Join(a, " ")] {
+				seen[strings.Join(a, " ")] = true
+				all = append(all, app{sf, a})
+			}
+		}
+	}
+	if len(all) <= 24 {
+		for i := 0; i < len(all); i++ {
+			for j := i + 1; j < len(all); j++ {
+				A, B := all[i], all[j]
+				if A.sf == B.sf {
+					continue
+				}
+				pa, pb := A.args[:len(A.args)-1], B.args[:len(B.args)-1]
+				loA, _ := A.sf.inst(pa, "0")
+				loB, _ := B.sf.inst(pb, "0")
+				if loA != loB {
+					continue
+				}
+				if A.args[len(A.args)-1] != B.args[len(B.args)-1] {
+					continue // only for textually identical upper bounds (keeps the number of instances small)
+				}
+				for _, n := range []string{A.args[len(A.args)-1]} {
+					nsk++
+					sk := fmt.Sprintf("sumsk_%d", nsk)
+					_, bA := A.sf.inst(pa, sk)
+					_, bB := B.sf.inst(pb, sk)
+					FA := sApp(A.sf.Name, append(append([]string{}, pa...), n)...)
+					FB := sApp(B.sf.Name, append(append([]string{}, pb...), n)...)
+					out = append(out, fmt.Sprintf("(declare-const %s Int)", sk))
+					out = append(out, fmt.Sprintf("(assert (=> (=> (and (<= %s %s) (< %s %s)) (= %s %s)) (= %s %s)))", loA, sk, sk, n, bA, bB, FA, FB))
+				}
+			}
+		}
+	}
 	return out
+}
+
+// skolemizeGoal replaces the universally quantified variables in positive positions of a goal (top level, under
+// "and", in the consequent of "=>") by fresh constants, so that the terms they occur in are ground in the refutation
+// query and the sum unfoldings / lemmas can be instantiated on them. Equivalent to what the solver does itself.
+func skolemizeGoal(e *sx, decls *[]string) *sx {
+	if e.isAtom() || len(e.kids) == 0 || !e.kids[0].isAtom() {
+		return e
+	}
+	switch e.kids[0].atom {
+	case "and":
+		n := &sx{kids: []*sx{e.kids[0]}}
+		for _, k := range e.kids[1:] {
+			n.kids = append(n.kids, skolemizeGoal(k, decls))
+		}
+		return n
+	case "=>":
+		if len(e.kids) == 3 {
+			return &sx{kids: []*sx{e.kids[0], e.kids[1], skolemizeGoal(e.kids[2], decls)}}
+		}
+	case "!":
+		if len(e.kids) >= 2 {
+			return skolemizeGoal(e.kids[1], decls)
+		}
+	case "forall":
+		if len(e.kids) == 3 && !e.kids[1].isAtom() {
+			body := e.kids[2]
+			for _, b := range e.kids[1].kids {
+				if b.isAtom() || len(b.kids) != 2 {
+					return e
+				}
+				name, sort := b.kids[0].atom, b.kids[1].String()
+				sk := "|sk." + name + "|"
+				*decls = append(*decls, fmt.Sprintf("(declare-const %s %s)", sk, sort))
+				body = substAtom(body, name, sk)
+			}
+			return skolemizeGoal(body, decls)
+		}
+	}
+	return e
+}
+
+func substAtom(e *sx, from, to string) *sx {
+	if e.isAtom() {
+		if e.atom == from {
+			return &sx{atom: to}
+		}
+		return e
+	}
+	n := &sx{kids: make([]*sx, len(e.kids))}
+	for i, k := range e.kids {
+		n.kids[i] = substAtom(k, from, to)
+	}
+	return n
+}
+
+func sortedSumKeys(sums map[string]*SumFn) []string {
+	var ks []string
+	for k := range sums {
+		ks = append(ks, k)
+	}
+	sort.Strings(ks)
+	return ks
 }
